@@ -879,11 +879,18 @@ impl Version {
                 {
                     return;
                 }
-                if first_key <= sst.first_key.as_slice()
-                    && sst.last_key.as_slice() <= last_key
-                    && !compaction.inputs.contains(&Setsum::from_digest(sst.setsum))
-                {
+                if compaction.inputs.contains(&Setsum::from_digest(sst.setsum)) {
+                    continue;
+                }
+                if first_key <= sst.first_key.as_slice() && sst.last_key.as_slice() <= last_key {
                     to_add.push(sst);
+                } else if sst.first_key.as_slice() <= last_key && first_key <= sst.last_key.as_slice()
+                {
+                    // This file meets the window but sticks out of it, so it stays where it is.
+                    // Anything added from this level or a shallower one within the window could
+                    // hold newer versions of a key this file holds, and the compaction would put
+                    // them below it.  Stop expanding.
+                    return;
                 }
             }
             if !to_add.is_empty() {
